@@ -47,7 +47,26 @@ impl Prop for C19Prop {
         use proptest::strategy::Strategy;
         proptest::strategy::Union::new_weighted(vec![
             (4, history_strategy(&profile(tier), cfg_strategy())),
-            (6, reward_scenario_strategy(&profile(tier), cfg_strategy())),
+            (5, reward_scenario_strategy(&profile(tier), cfg_strategy())),
+            // stake left on an unregistered validator (blocked removal) must still have its rewards withdrawn
+            (2, (registry_scenario_strategy(&profile(tier), cfg_strategy().prop_map(|mut c| {
+                if c.n_vals < 3 {
+                    c.n_vals += 2;
+                    c.n_reg = c.n_reg.max(2).min(c.n_vals);
+                }
+                c
+            }).boxed()), proptest::collection::vec((0u8..5, 0u8..2, amt_strategy()), 1..5))
+                .prop_map(|(mut h, acc)| {
+                    // rewards accrue right after the second (often blocked) removal, then an index update
+                    let pos = h.ops.iter().rposition(|o| matches!(o, Op::RemoveVal { .. })).map(|p| p + 1).unwrap_or(h.ops.len());
+                    let mut ins: Vec<Op> = acc.into_iter().map(|(v, coin, amt)| Op::Accrue { v, coin, amt }).collect();
+                    ins.push(Op::UpdateIndex { by: 0 });
+                    for (k, o) in ins.into_iter().enumerate() {
+                        h.ops.insert(pos + k, o);
+                    }
+                    h
+                })
+                .boxed()),
         ])
         .boxed()
     }
